@@ -166,6 +166,8 @@ def u2_names(sc):
         return {1: "samedecl" + s, 2: "samedecl" + s, "m1": "_moda", "m2": "_modb"}
     if v == "suffix":
         return {1: "public_tail" + s, 2: "_tail" + s, "m1": "_moda", "m2": "_modb"}
+    if v == "samemodule":
+        return {1: "declone" + s, 2: "decltwo" + s, "m1": "modsame" + s, "m2": "modsame" + s}
     return {1: "declone" + s, 2: "decltwo" + s, "m1": "moda", "m2": "modb"}
 
 
@@ -185,6 +187,8 @@ def u2_files(sc, root: str) -> dict:
     for e in sc["exports"]:
         mod = ".".join([root, sid, "sub", "deep", nm["m1"]] if e["tgt"] == 1 else [root, sid, "sub", nm["m2"]])
         line = f"from {mod} import {nm[e['tgt']]}" + (f" as {e['alias']}{s}" if e["alias"] else "") + "\n"
+        if sc.get("variant") == "samemodule":      # the module as a whole
+            line = f"from {'.'.join([root, sid, 'sub', 'deep'])} import {nm['m1']}\n"
         files["/".join([sid, *AT_PATH[e["at"]], "__init__.py"])] += line
     return files
 
